@@ -16,22 +16,32 @@ from harness import common as C
 LEVEL = "proof"
 RULE = ("matrix cases: random rational matrices/points/rectangles incl. singular, zero and negative entries; "
         "plane cases: random op sequences (add/remove/find/iter) over boxes on, across and outside the grid and the "
-        "plane bounds, negative non-integer coordinates, zero-size boxes; a case is non-trivial when it is a distinct "
+        "plane bounds, negative non-integer coordinates, zero-size boxes; full-interface histories (add/extend/remove of "
+        "live, removed and never-added objects/find/in/len/iter, gridsizes 1..500, zero-size planes); get_bound on "
+        "0..10 points incl. coordinates at and beyond +-INF; uniq/fsplit on int lists with duplicates and two "
+        "predicate families; a case is non-trivial when it is a distinct "
         "input that is not the identity/zero matrix resp. a sequence with >=1 find that returns >=1 object")
 TRUSTED_BASE = [
     "tools/translate (Python ast -> Lean) for mult_matrix, translate_matrix, apply_matrix_pt, apply_matrix_rect, "
-    "apply_matrix_norm, drange, MATRIX_IDENTITY - every translated definition is also run against the Python original",
+    "apply_matrix_norm, drange, MATRIX_IDENTITY, INF, get_bound (loop body translated, loop = List.foldl) - every "
+    "translated definition is also run against the Python original",
+    "uniq / fsplit: Lean definitions emitted by gen_c20.py only while the Python source has exactly the pinned "
+    "ast shape (generic generator/loop code is outside the translator subset); run against the Python original",
     "hand model lean/PdfVerif/Model/Plane.lean of utils.Plane (correspondence-checked on op sequences)",
     "exact rationals stand for Python floats (no rounding modelled)",
 ]
 ASSUMPTIONS = [
     "coordinates are exact rationals (fractions.Fraction on the Python side); IEEE rounding is not modelled",
-    "boxes are well formed (x0<=x1, y0<=y1); every add inserts a fresh object; remove targets a live object",
+    "boxes are well formed (x0<=x1, y0<=y1) and do not change while the object is in the index; add/extend insert "
+    "new objects, objects that are already there (no-op) or objects removed before (added again, last); remove "
+    "targets a live object or an object that is not in the index (then: KeyError, index unchanged)",
+    "get_bound is the tight hull for non-empty point lists inside [-INF, INF]^2 (outside: the +-INF limit shows, "
+    "modelled and proved as get_bound_attained_or_limit)",
 ]
 STATEMENT_STATUS = {}
 
 CLASSIFIERS = {
-    # re-adding an object that was added before makes __iter__ yield it twice
+    # (historic; fixed in round 6) re-adding an object that was added before made __iter__ yield it twice
     "c20_readd_duplicate_in_iter": lambda f: f.tags.get("readd", False) and f.tags.get("op") == "iter",
 }
 
@@ -259,8 +269,22 @@ def gen_plane_seq(rng, length: int, wild: bool):
     return pb, gs, ops
 
 
+def added_boxes(ops):
+    out = []
+    for o in ops:
+        if o[0] == "add":
+            out.append(o[1])
+        elif o[0] == "extend":
+            out.extend(o[1])
+    return out
+
+
 def op_line(op) -> str:
-    if op[0] in ("add", "remove"):
+    if op[0] == "extend":
+        return "plane.extend" + "".join(f" {b.id} {show((b.x0, b.y0, b.x1, b.y1))}" for b in op[1])
+    if op[0] == "len":
+        return "plane.len"
+    if op[0] in ("add", "remove", "contains"):
         b = op[1]
         return f"plane.{op[0]} {b.id} {show((b.x0, b.y0, b.x1, b.y1))}"
     if op[0] == "find":
@@ -269,7 +293,11 @@ def op_line(op) -> str:
 
 
 def op_json(op):
-    if op[0] in ("add", "remove"):
+    if op[0] == "extend":
+        return ["extend"] + [[b.id, str(b.x0), str(b.y0), str(b.x1), str(b.y1)] for b in op[1]]
+    if op[0] == "len":
+        return ["len"]
+    if op[0] in ("add", "remove", "contains"):
         b = op[1]
         return [op[0], b.id, str(b.x0), str(b.y0), str(b.x1), str(b.y1)]
     if op[0] == "find":
@@ -280,12 +308,18 @@ def op_json(op):
 def ops_from_json(js):
     boxes = {}
     ops = []
+    def box(id, cs):
+        b = boxes.get(id)
+        if b is None:
+            b = boxes[id] = Box(id, *(F(x) for x in cs))
+        return b
     for j in js:
-        if j[0] in ("add", "remove"):
-            b = boxes.get(j[1])
-            if b is None:
-                b = boxes[j[1]] = Box(j[1], *(F(x) for x in j[2:6]))
-            ops.append((j[0], b))
+        if j[0] in ("add", "remove", "contains"):
+            ops.append((j[0], box(j[1], j[2:6])))
+        elif j[0] == "extend":
+            ops.append(("extend", [box(e[0], e[1:5]) for e in j[1:]]))
+        elif j[0] == "len":
+            ops.append(("len",))
         elif j[0] == "find":
             ops.append(("find", tuple(F(x) for x in j[1:5])))
         else:
@@ -309,15 +343,42 @@ def exec_plane(pb, gs, ops, in_domain: bool):
                 if op[1].id in ever:
                     readd = True
                 ever.add(op[1].id)
-                order.append(op[1])
+                # set-like: an object that is there stays where it is; one that was removed is added again
+                if not any(o is op[1] for o in order):
+                    order.append(op[1])
                 outs.append("ok")
+            elif op[0] == "extend":
+                plane.extend(list(op[1]))
+                for b in op[1]:
+                    if b.id in ever:
+                        readd = True
+                    ever.add(b.id)
+                    if not any(o is b for o in order):
+                        order.append(b)
+                outs.append("ok")
+            elif op[0] == "contains":
+                got = op[1] in plane
+                outs.append("true" if got else "false")
+                exp = any(o is op[1] for o in order)
+                if in_domain and fail is None and got != exp:
+                    fail = (idx, "contains", exp, got)
+            elif op[0] == "len":
+                got = len(plane)
+                outs.append(str(got))
+                if in_domain and fail is None and got != len(order):
+                    fail = (idx, "len", len(order), got)
             elif op[0] == "remove":
+                was_live = any(o is op[1] for o in order)
                 try:
                     plane.remove(op[1])
                     order = [o for o in order if o is not op[1]]
                     outs.append("ok")
+                    if in_domain and fail is None and not was_live:
+                        fail = (idx, "remove", "KeyError (object is not in the index)", "no exception")
                 except KeyError:
                     outs.append("keyerror")
+                    if in_domain and fail is None and was_live:
+                        fail = (idx, "remove", "object removed", "KeyError")
             elif op[0] == "find":
                 got = list(plane.find(op[1]))
                 outs.append(" ".join(str(o.id) for o in got) if got else "-")
@@ -343,7 +404,7 @@ def exec_plane(pb, gs, ops, in_domain: bool):
 
 def plane_tags(pb, gs, ops, idx, kind):
     q = ops[idx][1] if ops[idx][0] == "find" else None
-    boxes = [o[1] for o in ops[:idx] if o[0] == "add"]
+    boxes = added_boxes(ops[:idx])
 
     def nonint_neg(v):
         return v < 0 and F(v).denominator != 1
@@ -352,7 +413,7 @@ def plane_tags(pb, gs, ops, idx, kind):
         neg = neg or any(nonint_neg(v) for v in q)
     outside = any(b.x1 <= pb[0] or b.x0 >= pb[2] or b.y1 <= pb[1] or b.y0 >= pb[3] or
                   b.x0 < pb[0] or b.y0 < pb[1] or b.x1 > pb[2] or b.y1 > pb[3] for b in boxes)
-    ids = [o[1].id for o in ops[:idx] if o[0] == "add"]
+    ids = [b.id for b in boxes]
     return {"op": kind, "neg_nonint": neg, "outside_bounds": outside, "readd": len(ids) != len(set(ids))}
 
 
@@ -363,7 +424,8 @@ def check_plane_case(ctx: C.Ctx, pb, gs, ops, in_domain: bool, lines, impl_all, 
              sample={"bounds": [str(x) for x in pb], "gridsize": gs, "ops": [op_json(o) for o in ops[:12]]},
              branch="plane:domain" if in_domain else "plane:wild")
     for o, r in zip(ops, outs):
-        ctx.branch("planeop:" + o[0] + (":hit" if o[0] == "find" and r != "-" else ""))
+        ctx.branch("planeop:" + o[0] + (":hit" if o[0] == "find" and r != "-" else "") +
+                   (":" + r if o[0] in ("remove", "contains") else ""))
     lines.append(f"plane.new {show(pb)} {gs}")
     impl_all.append("ok")
     inputs.append(("plane.new", None))
@@ -387,6 +449,9 @@ def check_plane_case(ctx: C.Ctx, pb, gs, ops, in_domain: bool, lines, impl_all, 
         tags = plane_tags(pb, gs, small, len(small) - 1, f2[1])
         what = {"find": "Plane.find differs from brute-force overlap search",
                 "iter": "Plane iteration is not the live objects in insertion order",
+                "contains": "Plane.__contains__ differs from membership in the live objects",
+                "len": "len(Plane) is not the number of live objects",
+                "remove": "Plane.remove of an absent/live object: wrong outcome",
                 "exception": "Plane operation raised"}[f2[1]]
         ctx.fail(C.Failure(what, {"bounds": [str(x) for x in pb], "gridsize": gs,
                                   "ops": [op_json(o) for o in small]}, f2[2], f2[3], tags))
@@ -488,6 +553,210 @@ def gen_plane_seq_astro(rng):
     return pb, gs, ops
 
 
+def gen_plane_seq_full(rng):
+    """In-domain histories over the WHOLE public interface: add, extend, remove (of live objects, of objects
+    removed before and of objects never added: KeyError, index unchanged), find, __contains__ (live / removed /
+    never added), __len__, iteration; every gridsize incl. ones larger than the plane."""
+    gs = rng.choice([1, 2, 3, 7, 20, 50, 50, 500])
+    x0 = fr(rng, -60, 60)
+    y0 = fr(rng, -60, 60)
+    pb = (x0, y0, x0 + abs(fr(rng, 0, 150)), y0 + abs(fr(rng, 0, 150)))   # zero-size planes included
+    if gs <= 2:
+        pb = (x0, y0, x0 + rng.randint(0, 8), y0 + rng.randint(0, 8))
+    ops = []
+    live: List[Box] = []
+    dead: List[Box] = []
+    never: List[Box] = []
+    nid = [0]
+
+    def fresh():
+        nid[0] += 1
+        if rng.random() < 0.15:     # zero-area object
+            (a, b, _, _) = gen_box(rng, pb, gs)
+            return Box(nid[0], a, b, a if rng.random() < 0.7 else a + 1, b)
+        return Box(nid[0], *gen_box(rng, pb, gs))
+    for _ in range(rng.randint(4, 36)):
+        r = rng.random()
+        if r < 0.25 or not live:
+            k = rng.random()
+            if k < 0.12 and dead:               # an object that was removed is added again: it becomes the last
+                b = rng.choice(dead)
+                dead.remove(b)
+                live.append(b)
+            elif k < 0.22 and live:             # an object that is there is added again: no-op
+                b = rng.choice(live)
+            elif k < 0.32 and live:             # a NEW object with exactly the box of another one
+                o = rng.choice(live)
+                nid[0] += 1
+                b = Box(nid[0], o.x0, o.y0, o.x1, o.y1)
+                live.append(b)
+            else:
+                b = fresh()
+                live.append(b)
+            ops.append(("add", b))
+        elif r < 0.33:
+            bs = [fresh() for _ in range(rng.randint(0, 4))]
+            if dead and rng.random() < 0.2:
+                b = rng.choice(dead)
+                dead.remove(b)
+                bs.insert(rng.randint(0, len(bs)), b)
+            live.extend(bs)
+            if rng.random() < 0.15:             # a live object inside the list: skipped
+                bs = list(bs)
+                bs.insert(rng.randint(0, len(bs)), rng.choice(live))
+            ops.append(("extend", bs))
+        elif r < 0.48:
+            k = rng.random()
+            if k < 0.25 and dead:
+                ops.append(("remove", rng.choice(dead)))          # removed before: KeyError
+            elif k < 0.4:
+                b = fresh()                                       # never added: KeyError
+                never.append(b)
+                ops.append(("remove", b))
+            else:
+                b = rng.choice(live)
+                live.remove(b)
+                dead.append(b)
+                ops.append(("remove", b))
+            ops.append(rng.choice([("len",), ("iter",)]))
+        elif r < 0.63:
+            pool = [x for x in (live, dead, never) if x]
+            ops.append(("contains", rng.choice(rng.choice(pool))))
+        elif r < 0.7:
+            ops.append(("len",))
+        elif r < 0.93:
+            if live and rng.random() < 0.6:
+                o = rng.choice(live)
+                dx, dy = abs(fr(rng, 0, 3)), abs(fr(rng, 0, 3))
+                q = (o.x0 - dx, o.y0 - dy, o.x1 + dx + F(1, 16), o.y1 + dy + F(1, 16))
+            else:
+                q = gen_box(rng, pb, gs)
+            ops.append(("find", q))
+        else:
+            ops.append(("iter",))
+    ops += [("len",), ("iter",)]
+    return pb, gs, ops
+
+
+# ------------------------------------------------------------------ list helpers
+
+def run_helpers(ctx: C.Ctx) -> None:
+    """get_bound / uniq / fsplit: tie to the regenerated Lean definitions + their specification on the
+    implementation itself."""
+    from pdfminer import utils as U
+    rng = ctx.rng
+    lines: List[str] = []
+    impl: List[str] = []
+    inputs: List[Any] = []
+    INF = U.INF
+
+    def ints(xs):
+        return " ".join(str(x) for x in xs) if xs else "-"
+    for i in range(ctx.n(300, 8000)):
+        k = rng.random()
+        n = rng.choice([0, 1, 1, 2, 3, 4, 4, 6, 9])
+
+        def coord():
+            t = rng.random()
+            if k < 0.15 and t < 0.3:    # beyond +-INF: the initial limit shows through
+                return rng.choice([-1, 1]) * (INF + rng.choice([0, 1, F(1, 2), 10 ** 12]))
+            if t < 0.1:
+                return F(rng.choice([INF, -INF, INF - 1, 1 - INF]))
+            return fr(rng, -300, 300)
+        pts = [(coord(), coord()) for _ in range(n)]
+        if pts and rng.random() < 0.2:
+            pts.append(rng.choice(pts))
+        try:
+            got = tuple(U.get_bound(pts))
+            out = show(got)
+        except Exception as e:  # noqa: BLE001
+            got, out = None, "EXC:" + type(e).__name__
+        lines.append("getbound" + "".join(" " + show(p) for p in pts))
+        impl.append(out)
+        inputs.append(("getbound", [[str(p[0]), str(p[1])] for p in pts]))
+        inside = bool(pts) and all(-INF <= c <= INF for p in pts for c in p)
+        ctx.case(("gb", tuple(pts)), len(set(pts)) >= 2,
+                 branch="get_bound:" + ("empty" if not pts else "inside" if inside else "beyond-INF"))
+        if inside:
+            exp = (min(p[0] for p in pts), min(p[1] for p in pts), max(p[0] for p in pts), max(p[1] for p in pts))
+            if got != exp:
+                ctx.fail(C.Failure("get_bound is not the tight hull of the points",
+                                   {"helper": "get_bound", "pts": [[str(p[0]), str(p[1])] for p in pts]},
+                                   [str(x) for x in exp], out, {"op": "get_bound"}))
+    for i in range(ctx.n(300, 8000)):
+        n = rng.choice([0, 1, 2, 3, 5, 8, 13])
+        span = rng.choice([1, 2, 4, 50])
+        xs = [rng.randint(-span, span) for _ in range(n)]
+        try:
+            got = list(U.uniq(iter(xs)))
+            out = ints(got)
+        except Exception as e:  # noqa: BLE001
+            got, out = None, "EXC:" + type(e).__name__
+        lines.append("uniq " + " ".join(str(x) for x in xs))
+        impl.append(out)
+        inputs.append(("uniq", xs))
+        ctx.case(("uniq", tuple(xs)), len(set(xs)) < len(xs), branch="uniq:dups" if len(set(xs)) < len(xs) else "uniq:nodup")
+        exp = [x for j, x in enumerate(xs) if x not in xs[:j]]
+        if got != exp:
+            ctx.fail(C.Failure("uniq is not the list of first occurrences", {"helper": "uniq", "xs": xs}, exp, out,
+                               {"op": "uniq"}))
+        if rng.random() < 0.5:
+            t = rng.randint(-span, span)
+            pred, pl, pj = (lambda x: x < t), f"lt {t}", ["lt", t]
+        else:
+            m = rng.choice([2, 3, 5])
+            r = rng.randint(0, m - 1)
+            pred, pl, pj = (lambda x: x % m == r), f"mod {m} {r}", ["mod", m, r]
+        try:
+            gt, gf = U.fsplit(pred, iter(xs))
+            out = ints(gt) + " | " + ints(gf)
+        except Exception as e:  # noqa: BLE001
+            gt = gf = None
+            out = "EXC:" + type(e).__name__
+        lines.append("fsplit " + pl + "".join(" " + str(x) for x in xs))
+        impl.append(out)
+        inputs.append(("fsplit", {"pred": pj, "xs": xs}))
+        et, ef = [x for x in xs if pred(x)], [x for x in xs if not pred(x)]
+        ctx.case(("fsplit", tuple(pj), tuple(xs)), bool(et) and bool(ef), branch="fsplit:" + pj[0])
+        if (gt, gf) != (et, ef):
+            ctx.fail(C.Failure("fsplit is not (filter pred, filter not pred)",
+                               {"helper": "fsplit", "pred": pj, "xs": xs}, [et, ef], out, {"op": "fsplit"}))
+    if ctx.driver is not None:
+        outs = ctx.driver.ask(lines)
+        for inp, i_out, m_out in zip(inputs, impl, outs):
+            if i_out != m_out:
+                ctx.disagree(inp[0], inp[1], i_out, m_out)
+
+
+def replay_helper(ctx: C.Ctx, inp) -> None:
+    from pdfminer import utils as U
+    h = inp["helper"]
+    if h == "get_bound":
+        pts = [(F(a), F(b)) for a, b in inp["pts"]]
+        got = tuple(U.get_bound(pts))
+        exp = (min(p[0] for p in pts), min(p[1] for p in pts), max(p[0] for p in pts), max(p[1] for p in pts))
+        ctx.case(("gb", tuple(pts)), True, branch="replay")
+        if got != exp:
+            ctx.fail(C.Failure("get_bound is not the tight hull of the points", inp, [str(x) for x in exp],
+                               show(got), {"op": "get_bound"}))
+    elif h == "uniq":
+        xs = inp["xs"]
+        got = list(U.uniq(iter(xs)))
+        exp = [x for j, x in enumerate(xs) if x not in xs[:j]]
+        ctx.case(("uniq", tuple(xs)), True, branch="replay")
+        if got != exp:
+            ctx.fail(C.Failure("uniq is not the list of first occurrences", inp, exp, got, {"op": "uniq"}))
+    elif h == "fsplit":
+        xs, pj = inp["xs"], inp["pred"]
+        pred = (lambda x: x < pj[1]) if pj[0] == "lt" else (lambda x: x % pj[1] == pj[2])
+        gt, gf = U.fsplit(pred, iter(xs))
+        et, ef = [x for x in xs if pred(x)], [x for x in xs if not pred(x)]
+        ctx.case(("fsplit", tuple(pj), tuple(xs)), True, branch="replay")
+        if (gt, gf) != (et, ef):
+            ctx.fail(C.Failure("fsplit is not (filter pred, filter not pred)", inp, [et, ef], [gt, gf],
+                               {"op": "fsplit"}))
+
+
 def run_plane(ctx: C.Ctx) -> None:
     rng = ctx.rng
     lines: List[str] = []
@@ -501,10 +770,17 @@ def run_plane(ctx: C.Ctx) -> None:
         pb, gs, ops = gen_plane_seq_big(rng)
         ctx.branch("plane:many-cells")
         check_plane_case(ctx, pb, gs, ops, True, lines, impl, inputs)
+    for i in range(ctx.n(120, 4000)):
+        pb, gs, ops = gen_plane_seq_full(rng)
+        ctx.branch("plane:full-interface")
+        check_plane_case(ctx, pb, gs, ops, True, lines, impl, inputs)
     for i in range(ctx.n(150, 6000)):
         wild = (i % 4 == 3)
         pb, gs, ops = gen_plane_seq(rng, rng.randint(3, 40), wild)
-        check_plane_case(ctx, pb, gs, ops, not wild, lines, impl, inputs)
+        # re-adds, duplicate adds and removals of absent objects are in the domain since the repair of Plane.add
+        if wild:
+            ctx.branch("plane:duplicates-and-readds")
+        check_plane_case(ctx, pb, gs, ops, True, lines, impl, inputs)
     if ctx.driver is not None:
         outs = ctx.driver.ask(lines)
         bad_seq = False
@@ -527,7 +803,9 @@ def run_corpus(ctx: C.Ctx) -> None:
 
 def replay(ctx: C.Ctx, doc, from_corpus: bool = False) -> None:
     inp = doc.get("input", {})
-    if "ops" in inp:
+    if "helper" in inp:
+        replay_helper(ctx, inp)
+    elif "ops" in inp:
         pb = tuple(F(x) for x in inp["bounds"])
         ops = ops_from_json(inp["ops"])
         lines, impl, inputs = [], [], []
@@ -548,4 +826,5 @@ def replay(ctx: C.Ctx, doc, from_corpus: bool = False) -> None:
 def run(ctx: C.Ctx) -> None:
     run_corpus(ctx)
     run_matrix(ctx)
+    run_helpers(ctx)
     run_plane(ctx)
